@@ -320,9 +320,74 @@ def rebuild_calls(mdl, mod):
     return c
 
 
+class Md5(Part):
+    """The staleness detector must react to every declaration that reaches the generated code."""
+    name = 'md5'
+    chunk = 8
+    timeout = 300.0
+
+    def describe(self, tier):
+        return ('every model x every declared string (e_str, v_str, v_iter of every variable incl. absent -> present, v_str and '
+                'sequential flag of every service, exported flags of every discrete component, parameter and config names): '
+                'editing it must change Model.get_md5()')
+
+    def cases(self, tier):
+        return model_names()
+
+    def init_worker(self):
+        import andes
+        self.ss = andes.System(no_output=True, default_config=True)
+
+    def execute(self, case):
+        out = Outcome()
+        mdl = self.ss.models[case]
+        base = mdl.get_md5()
+        n = 0
+        seen = set()
+
+        def probe(kind, label, setter, restore):
+            nonlocal n
+            n += 1
+            try:
+                setter()
+                changed = mdl.get_md5() != base
+            finally:
+                restore()
+            if not changed and kind not in seen:
+                seen.add(kind)
+                out.bad(f'md5_insensitive:{kind}', f'{case}: editing {label} does not change the model checksum, so stale '
+                        f'generated code would keep being loaded')
+        for vn, var in mdl.cache.all_vars.items():
+            for attr in ('e_str', 'v_str', 'v_iter'):
+                old = getattr(var, attr, None)
+                others = [a for a in ('e_str', 'v_str', 'v_iter') if a != attr and getattr(var, a, None) is not None]
+                kind = f'{attr}:{"absent" if old is None else "edited"}:with_{"+".join(others) or "nothing"}'
+                new = '1.5' if old is None else f'({old}) * 1.0625'
+                probe(kind, f'{vn}.{attr}', lambda v=var, a=attr, x=new: setattr(v, a, x),
+                      lambda v=var, a=attr, x=old: setattr(v, a, x))
+        for sn, svc in mdl.services.items():
+            old = svc.v_str
+            new = '1.5' if old is None else f'({old}) * 1.0625'
+            probe(f'service_v_str:{"absent" if old is None else "edited"}', f'service {sn}.v_str',
+                  lambda v=svc, x=new: setattr(v, 'v_str', x), lambda v=svc, x=old: setattr(v, 'v_str', x))
+            if hasattr(svc, 'sequential'):
+                olds = svc.sequential
+                probe('service_sequential', f'service {sn}.sequential', lambda v=svc, x=(not olds): setattr(v, 'sequential', x),
+                      lambda v=svc, x=olds: setattr(v, 'sequential', x))
+        for dn, d in mdl.discrete.items():
+            oldf = list(d.export_flags)
+            if oldf:
+                probe('discrete_flags', f'discrete {dn}.export_flags', lambda v=d, x=oldf[:-1]: setattr(v, 'export_flags', x),
+                      lambda v=d, x=oldf: setattr(v, 'export_flags', x))
+        out.obs = dict(model=case, probes=n, md5=base)
+        out.transitions = n
+        out.nontrivial = n > 0
+        return out
+
+
 def parts(tier):
     from vmc.checks.c02_stale import Stale
-    return [Values(tier), Regen(tier), Stale(tier)]
+    return [Values(tier), Md5(), Regen(tier), Stale(tier)]
 
 
 def run(run, only=None):
